@@ -4,7 +4,6 @@ import (
 	"fmt"
 	"go/token"
 	"go/types"
-	"os"
 	"sort"
 	"strings"
 	"time"
@@ -17,9 +16,9 @@ func init() {
 		ID:    "C01",
 		Title: "Every storage backend behaves as a content-addressed map",
 		Explanation: "Decided (structural necessary conditions, all over the type-checked SSA of the current tree): " +
-			"E-close — every declared EnumerateBlobs/StreamBlobs method of every implementer of blobserver.BlobEnumerator/BlobStreamer (and every function such a method hands its channel to) reaches every non-panic exit with dest closed exactly once: by close, a registered defer, a deferred/spawned literal that closes on all its paths, or by handing dest to a callee that is itself checked (interface EnumerateBlobs/StreamBlobs calls discharge by contract because every implementer is in the instance set); no path closes twice. " +
-			"E-cursor — for the backends C01 names plus the index: a leaf enumerator skips, within the same loop iteration, every element whose key compares <= the cursor (or == when the iterator was positioned by an inclusive sorted.KeyValue.Find on the cursor); a merging enumerator forwards the cursor to every sub-enumeration; a forwarding enumerator passes the cursor unchanged. " +
-			"E-limit — a leaf/merging enumerator has a comparison between a send counter and limit (or a decremented limit and 0) whose stop edge reaches no further send, that is re-evaluated in the loop of the send, stops at count >= limit (not limit+1), and whose counter is updated on the path of the send; forwarders pass limit unchanged. " +
+			"E-close — every declared EnumerateBlobs/StreamBlobs method of every implementer of blobserver.BlobEnumerator/BlobStreamer (and every function such a method hands its channel to) reaches every non-panic exit with dest closed exactly once: by close, a registered defer, a deferred/spawned literal that closes on all its paths, or by handing dest to a callee that is itself checked (interface EnumerateBlobs/StreamBlobs calls discharge by contract because every implementer is in the instance set); no path closes twice. One exception, re-checked structurally on every run: cond.(*condStorage).EnumerateBlobs' exit with sto.read == nil is pruned only while every condStorage is built by a function that stores Loader.GetStorage's result into .read and returns the object only on that call's err == nil edge. " +
+			"E-cursor — for the backends C01 names plus the index: a leaf enumerator skips, within the same loop iteration, every element whose key compares <= the cursor (or == when the iterator was positioned by an inclusive sorted.KeyValue.Find on the cursor); a merging enumerator forwards the cursor to every sub-enumeration; a forwarding enumerator passes on a cursor built only from `after`; a cursor test hidden in a helper function is reported undecided, never passed. " +
+			"E-limit — a leaf/merging enumerator has a comparison between a send counter and limit (or a decremented limit and 0) whose stop edge reaches no further send, that is re-evaluated in the loop of the send, stops at count >= limit (not limit+1), and whose counter is updated on the path of the send; forwarders pass on a limit derived from `limit`. " +
 			"S-route — in shard every read index into shardStorage.shards is computed by shardNum, shardNum is a function of the ref and the shard count only, each shard() caller passes the same ref to the chosen shard, and batchedShards files each ref under shardNum(ref) and hands each shard exactly the list filed under its own index. " +
 			"O-tomb — overlay: a nil-error ReceiveBlob implies upper.ReceiveBlob succeeded and, when a tombstone store exists, the tombstone of the same ref was deleted successfully; a nil-error RemoveBlobs implies a committed batch that Sets every ref; Fetch, StatBlobs and EnumerateBlobs yield only under isDeleted == false for the ref yielded; isDeleted answers true only on a successful Get of the ref's key; all tombstone keys are Ref.String() of the ref. " +
 			"M-dedup — mergedEnumerate: the discard predicate, evaluated symbolically for ref <, ==, > lastSent, means ref <= lastSent (and false before anything was sent), Take() happens only under that predicate being true for the peeked ref of the same peeker, the filter precedes the selection of the candidate from the same peeker in every iteration, and lastSent is assigned the sent ref in the sending iteration. " +
@@ -28,8 +27,8 @@ func init() {
 			"NOT decided: byte-for-byte equality of fetched data, size correctness, that a sorted.KeyValue iterator yields ascending keys (C10) or that the comparator used by a sort call is the blobref text order, that the bypass conditions around the cursor guard (first-iteration flags, after != \"\") are right, cursor semantics of cloud back ends (s3, gcs, azure, mongo, remote: E-close only), duplicate-receive no-op, any statement about histories, compositions or paging completeness. Those need execution.",
 		RuleDocs: map[string]string{
 			"E-close":  "every declared EnumerateBlobs/StreamBlobs method (exhaustive over implementers) + every static callee that receives dest: dest is closed exactly once on every path to every non-panic exit (close, defer, literal that closes, or delegation to a checked callee)",
-			"E-cursor": "enumerators of the C01 backends + index + the merged-enumerate helpers: leaf: each send is skipped in-iteration on the key<=cursor (or key==cursor after Find(cursor)) edge of a comparison against a value built only from `after`; merge: cursor forwarded to all sub-enumerations; forwarder: cursor passed unchanged",
-			"E-limit":  "same instance set: leaf/merge: a counter-vs-limit comparison with a stop edge that reaches no send, in the send's loop, polarity count>=limit, counter updated on the send path; forwarder: limit passed unchanged",
+			"E-cursor": "enumerators of the C01 backends + index + the merged-enumerate helpers: leaf: each send is skipped in-iteration on the key<=cursor (or key==cursor after Find(cursor)) edge of a comparison against a value built only from `after`; merge: cursor forwarded to all sub-enumerations; forwarder: cursor argument built only from `after`",
+			"E-limit":  "same instance set: leaf/merge: a counter-vs-limit comparison with a stop edge that reaches no send, in the send's loop, polarity count>=limit, counter updated on the send path; forwarder: limit argument derived from `limit`",
 			"S-route":  "shard: every read index of shardStorage.shards depends on shardNum; shardNum depends only on the ref and len(shards); shard(b) callers pass b on; batchedShards files refs under shardNum(ref) and pairs shards[k] with m[k]",
 			"O-tomb":   "overlay: nil-error ReceiveBlob dominated by upper.ReceiveBlob ok and (deleted!=nil => deleted.Delete(ref) ok); nil-error RemoveBlobs = CommitBatch of a batch that Sets each ref; reads gated by isDeleted==false; isDeleted true only on Get ok; key agreement Ref.String()",
 			"M-dedup":  "mergedEnumerate: discard predicate means ref <= lastSent (evaluated symbolically); Take only under predicate true on the same peeker; filter before candidate selection; lastSent recorded in the sending iteration",
@@ -46,16 +45,6 @@ func init() {
 func runC01(p *Program, r *Reporter) {
 	t0 := time.Now()
 	defer func() { r.Note("C01 rules ran in %.2fs after loading", time.Since(t0).Seconds()) }()
-	if os.Getenv("C01_DEBUG") != "" { // DEV ONLY
-		defer func() {
-			fmt.Fprintf(os.Stderr, "C01_DEBUG rules %.2fs, %d obligations, counts %v\n", time.Since(t0).Seconds(), len(r.Obls), r.counts)
-			for _, o := range r.Obls {
-				if o.Status != Discharged || os.Getenv("C01_DEBUG") == "all" {
-					fmt.Fprintf(os.Stderr, "C01_DEBUG %s %s [%s] %s: %s\n", o.Status, o.Rule, o.Construct, o.Site, o.Detail)
-				}
-			}
-		}()
-	}
 	ruleEClose(p, r, "E-close")
 	insts := c01ScopeInstances(p)
 	c01RuleCursor(p, r, insts)
@@ -1119,6 +1108,10 @@ func c01RuleCursor(p *Program, r *Reporter, insts []*c01Inst) {
 				if s.body.how != "direct" {
 					construct += ":" + FuncKey(s.body.fn)
 				}
+				if !ok && c01CursorHelperTest(s) {
+					r.Undecided(rule, construct, p.Pos(s.in.Pos()), "a branch tests the cursor inside a helper function, which this rule does not follow: "+detail)
+					continue
+				}
 				r.Check(ok, rule, construct, p.Pos(s.in.Pos()), detail, detail)
 			}
 		}
@@ -1213,6 +1206,43 @@ func c01CursorGuard(s c01Send, kv *types.Interface) (bool, string) {
 		why = append(why, "no comparison of an element key against the cursor guards the send")
 	}
 	return false, fmt.Sprintf("leaf (%s): send at line %d is not guarded by an exclusive cursor test: %s", b.how, g.Prog.Fset.Position(s.in.Pos()).Line, strings.Join(why, "; "))
+}
+
+// c01CursorHelperTest: some branch of the send's function is decided by a call
+// of a module function that receives a value built from the cursor.
+func c01CursorHelperTest(s c01Send) bool {
+	b := s.body
+	for _, blk := range s.in.Parent().Blocks {
+		if len(blk.Instrs) == 0 {
+			continue
+		}
+		ifi, ok := blk.Instrs[len(blk.Instrs)-1].(*ssa.If)
+		if !ok {
+			continue
+		}
+		cond := ifi.Cond
+		for {
+			u, isNot := cond.(*ssa.UnOp)
+			if !isNot || u.Op != token.NOT {
+				break
+			}
+			cond = u.X
+		}
+		call, ok := cond.(*ssa.Call)
+		if !ok {
+			continue
+		}
+		f := call.Call.StaticCallee()
+		if f == nil || !InModule(f) && f.Parent() == nil {
+			continue
+		}
+		for _, a := range call.Call.Args {
+			if c01PureCursor(a, b.isAfter, 0) && DependsOn(a, b.isAfter) {
+				return true
+			}
+		}
+	}
+	return false
 }
 
 // ===========================================================================
@@ -2800,6 +2830,24 @@ func c01IsSortCall(c CallSite) bool {
 	return false
 }
 
+// c01SameVarLoad: both values are reads of one and the same variable (a slice
+// variable captured by a comparator literal lives in a cell and is re-read).
+func c01SameVarLoad(a, b ssa.Value) bool {
+	cellOf := func(v ssa.Value) ssa.Value {
+		ld, ok := originValue(v).(*ssa.UnOp)
+		if !ok || ld.Op != token.MUL {
+			return nil
+		}
+		c, ok := varOf(ld.X)
+		if !ok {
+			return nil
+		}
+		return c
+	}
+	ca, cb := cellOf(a), cellOf(b)
+	return ca != nil && ca == cb
+}
+
 func c01RuleSorted(p *Program, r *Reporter, insts []*c01Inst) {
 	const rule = "E-sorted"
 	kv := p.Iface("pkg/sorted", "KeyValue")
@@ -2841,7 +2889,7 @@ func c01RuleSorted(p *Program, r *Reporter, insts []*c01Inst) {
 				}
 				for _, a := range c.Args() {
 					for _, sl := range ranged {
-						if sameOrigin(a, sl) {
+						if sameOrigin(a, sl) || c01SameVarLoad(a, sl) {
 							ok = true
 						}
 					}
